@@ -1,4 +1,5 @@
 import Norad.Lemmas.C20
+import Norad.Generated.KurboConv
 import Norad.Props.C11
 /-!
 # C20 — contour → Bézier path and transform conversions follow the glif drawing rules
@@ -443,6 +444,159 @@ theorem affine_roundtrip {β : Type} (t : Affine β) (k : KAffine β) :
     in this order (a consistent swap in both conversions would keep `affine_roundtrip` true) -/
 theorem toK_coeffs {β : Type} (t : Affine β) :
     toK t = ⟨t.xScale, t.xyScale, t.yxScale, t.yScale, t.xOffset, t.yOffset⟩ := rfl
+
+/-! ## source-level tie: the conversion regenerated from `src/glyph/mod.rs` on every run
+
+`Generated/KurboConv.lean` is written by `tools/extract_kurbo_conv.py` from `Contour::is_closed`, `Contour::to_kurbo`
+(start-point selection, the two walks, the off-curve-only block, the five arms of `match pt.typ`, the slice-pattern
+arms of the `Curve` arm with the error returned, the `QCurve` loop, every `close_path` call), `ContourPoint::transform`
+(expression structure preserved), both `From` impls, and kurbo's `Affine * Point` from the vendored crate, as they
+stand in the working tree.  The theorems below say that the regenerated definitions ARE the hand-written model's, so
+`toKurbo_eq_spec` and everything above is re-checked against the current source; a changed arm, threshold, error,
+rotation constant, midpoint pair, cross term or coefficient order makes one of them fail to check (and the
+correspondence run then supplies the concrete contour or transform). -/
+
+theorem source_isClosed_eq_model : @Gen.isClosed = @isClosed := by
+  funext α pts
+  cases pts <;> rfl
+
+theorem source_rotateIdx_eq_model : @Gen.rotateIdx = @rotateIdx := rfl
+
+theorem source_curveArm_eq_model : @Gen.curveArm = @curveArm := by
+  funext α offs e
+  rcases offs with _ | ⟨a, _ | ⟨b, _ | ⟨c, r⟩⟩⟩ <;> rfl
+
+theorem source_qcurveLoop_eq_model : @Gen.qcurveLoop = @qcurveLoop := by
+  funext α mid l
+  induction l with
+  | nil => funext e; simp [Gen.qcurveLoop, qcurveLoop]
+  | cons a r ih =>
+    cases r with
+    | nil => funext e; simp [Gen.qcurveLoop, qcurveLoop]
+    | cons b r' => funext e; simp [Gen.qcurveLoop, qcurveLoop, ih]
+
+theorem source_qcurveArm_eq_model : @Gen.qcurveArm = @qcurveArm := by
+  funext α mid offs e
+  simp [Gen.qcurveArm, qcurveArm, source_qcurveLoop_eq_model]
+
+theorem source_go_eq_model : @Gen.go = @go := by
+  funext α mid offs ps
+  induction ps generalizing offs with
+  | nil => simp [Gen.go, go]
+  | cons p ps ih =>
+    unfold Gen.go go
+    rw [source_curveArm_eq_model, source_qcurveArm_eq_model]
+    cases p.typ <;> simp [ih]
+    cases curveArm offs p.pos <;> rfl
+
+theorem source_drawWalk_eq_model : @Gen.drawWalk = @drawWalk := by
+  funext α mid pts
+  cases pts <;> simp [Gen.drawWalk, drawWalk, source_go_eq_model]
+
+theorem source_allOffPath_eq_model : @Gen.allOffPath = @allOffPath := rfl
+
+/-- the conversion as regenerated from the source is the model the theorems are about -/
+theorem source_toKurbo_eq_model : @Gen.toKurbo = @toKurbo := by
+  funext α mid pts
+  unfold Gen.toKurbo toKurbo
+  rw [source_isClosed_eq_model, source_rotateIdx_eq_model, source_drawWalk_eq_model,
+    source_allOffPath_eq_model]
+  cases isClosed pts <;> cases rotateIdx pts <;> rfl
+
+/-- **the property, stated of the regenerated source**: for every legal contour it succeeds with the outline -/
+theorem source_toKurbo_eq_spec {α : Type} (mid : α → α → α) (pts : List (Pt α)) (h : Legal pts) :
+    Gen.toKurbo mid pts = .ok (specPath mid pts) := by
+  rw [source_toKurbo_eq_model]
+  exact toKurbo_eq_spec mid pts h
+
+/-- the model never produces `close` … -/
+theorem go_never_closes {α : Type} (mid : α → α → α) (ps : List (Pt α)) (offs : List α) (els : List (El α))
+    (h : go mid offs ps = .ok els) : El.close ∉ els := by
+  induction ps generalizing offs els with
+  | nil => simp [go] at h; subst h; simp
+  | cons p ps ih =>
+    unfold go at h
+    have hq : ∀ (o : List α) (e : α), El.close ∉ qcurveLoop mid o e := by
+      intro o
+      induction o with
+      | nil => intro e; simp [qcurveLoop]
+      | cons a r ihq =>
+        cases r with
+        | nil => intro e; simp [qcurveLoop]
+        | cons b r' => intro e; simp only [qcurveLoop, List.mem_cons, not_or]; exact ⟨by simp, ihq e⟩
+    have hpre : ∀ (a : List (El α)) (q : List α), El.close ∉ a → prepend a (go mid q ps) = .ok els → El.close ∉ els := by
+      intro a q ha hp
+      cases hg : go mid q ps with
+      | error e => simp [hg, prepend] at hp
+      | ok b =>
+        simp only [hg, prepend, Except.ok.injEq] at hp
+        subst hp
+        simp only [List.mem_append, not_or]
+        exact ⟨ha, ih q b hg⟩
+    cases ht : p.typ with
+    | move => simp only [ht] at h; exact hpre _ _ (by simp) h
+    | line => simp only [ht] at h; exact hpre _ _ (by simp) h
+    | off => simp only [ht] at h; exact ih _ _ h
+    | qcurve =>
+      simp only [ht] at h
+      refine hpre _ _ ?_ h
+      unfold qcurveArm
+      simp only [List.mem_append, not_or]
+      exact ⟨by split <;> simp, hq _ _⟩
+    | curve =>
+      simp only [ht] at h
+      cases hc : curveArm offs p.pos with
+      | error e => simp [hc] at h
+      | ok a =>
+        simp only [hc] at h
+        refine hpre _ _ ?_ h
+        unfold curveArm at hc
+        rcases offs with _ | ⟨x, _ | ⟨y, _ | ⟨z, r⟩⟩⟩ <;> simp at hc <;> subst hc <;> simp
+
+/-- … and the source has no `close_path` call: "returns to its start" is the end point of the last segment -/
+theorem source_never_closes {α : Type} (mid : α → α → α) (pts : List (Pt α)) (els : List (El α))
+    (h : Gen.toKurbo mid pts = .ok els) : Gen.emitsClose = false ∧ El.close ∉ els := by
+  refine ⟨rfl, ?_⟩
+  rw [source_toKurbo_eq_model] at h
+  unfold toKurbo at h
+  have hdw : ∀ w, drawWalk mid w = .ok els → El.close ∉ els := by
+    intro w hw
+    cases w with
+    | nil => simp [drawWalk] at hw; subst hw; simp
+    | cons s r =>
+      simp only [drawWalk] at hw
+      cases hg : go mid [] r with
+      | error e => simp [hg, prepend] at hw
+      | ok b =>
+        simp only [hg, prepend, Except.ok.injEq] at hw
+        subst hw
+        simpa using go_never_closes mid r [] b hg
+  split at h
+  · split at h
+    · simp only [Except.ok.injEq] at h
+      subst h
+      unfold allOffPath
+      split <;> simp
+    · exact hdw _ h
+  · exact hdw _ h
+
+/-- the transform formula of the source is the model's (structure of `+` and `*` included) -/
+theorem source_transform_eq_model : @Gen.transform = @transform := rfl
+
+/-- both conversions of the source map the coefficients as the model does -/
+theorem source_conversions_eq_model : @Gen.toK = @toK ∧ @Gen.ofK = @ofK := ⟨rfl, rfl⟩
+
+/-- kurbo's `Affine * Point`, read from the vendored crate, is the model's `KAffine.apply` -/
+theorem source_kurbo_apply_eq_model : @Gen.kApply = @KAffine.apply := rfl
+
+/-- **the transform part of the property, stated of the regenerated sources alone**: norad's `transform` is the same
+    expression as kurbo's `Affine * Point` on the converted transform, it is the formula of the property, and the two
+    conversions are inverse to each other -/
+theorem source_transform_property {β : Type} [Add β] [Mul β] (t : Affine β) (k : KAffine β) (x y : β) :
+    Gen.kApply (Gen.toK t) x y = Gen.transform t x y ∧
+    Gen.transform t x y =
+      (t.xScale * x + t.yxScale * y + t.xOffset, t.xyScale * x + t.yScale * y + t.yOffset) ∧
+    Gen.ofK (Gen.toK t) = t ∧ Gen.toK (Gen.ofK k) = k := ⟨rfl, rfl, rfl, rfl⟩
 
 /-! ## non-vacuity and regression witnesses (integer coordinates, `mid a b = (a + b) / 2`) -/
 
